@@ -62,8 +62,9 @@ MAX_ELEMS = 40000          # arrays above this size are not serialised (counted)
 MAX_CALLS = 8              # recorded calls per kernel per case (all are counted)
 
 # kernel codes of Model/EntryC19.v
-K_TLI, K_SKEL, K_IL = 1, 2, 3
-MONITORED = {K_TLI: "table_lookup_index", K_SKEL: "skeletonize_loop", K_IL: "index_lookup"}
+K_TLI, K_SKEL, K_IL, K_RECON, K_PROP, K_ARR = 1, 2, 3, 4, 5, 6
+MONITORED = {K_TLI: "table_lookup_index", K_SKEL: "skeletonize_loop", K_IL: "index_lookup",
+             K_RECON: "grey_reconstruction_loop", K_PROP: "propagate", K_ARR: "augmenting_row_reduction"}
 
 
 # =========================================================================================== spy
@@ -157,6 +158,64 @@ def _mk_spies(real):
                 _unmon("index_lookup", spy_error=repr(e))
         return real["index_lookup"](index_i, index_j, image, table_in, iterations, *a, **kw)
     spies["index_lookup"] = index_lookup
+
+    def grey_reconstruction_loop(values, prev, next, strides, current, image_stride, *a, **kw):
+        if _Rec.calls is not None and _note("grey_reconstruction_loop"):
+            try:
+                loc = sys._getframe(1).f_locals          # the wrapper's locals: padding geometry
+                img, pad = loc.get("image"), loc.get("padding")
+                if img is None or pad is None:
+                    _unmon("grey_reconstruction_loop", spy_error="caller frame has no image/padding")
+                elif np.asarray(img).ndim != 2:
+                    _unmon("grey_reconstruction_loop", not_2d=True)
+                elif not _small(values, prev, next):
+                    _unmon("grey_reconstruction_loop", too_large=True)
+                else:
+                    H, W = (int(v) for v in np.asarray(img).shape)
+                    p0, p1 = (int(v) for v in np.asarray(pad).ravel())
+                    _rec(K_RECON, "grey_reconstruction_loop",
+                         [K_RECON, H, W, p0, p1, _ints(values), _ints(prev), _ints(next), _ints(strides),
+                          int(current), int(image_stride)])
+            except Exception as e:      # noqa
+                _unmon("grey_reconstruction_loop", spy_error=repr(e))
+        return real["grey_reconstruction_loop"](values, prev, next, strides, current, image_stride, *a, **kw)
+    spies["grey_reconstruction_loop"] = grey_reconstruction_loop
+
+    def propagate(image, pq, mask, labels, distances, weight, *a, **kw):
+        if _Rec.calls is not None and _note("propagate"):
+            try:
+                q = np.asarray(pq)
+                if q.ndim == 2 and q.size <= MAX_ELEMS:
+                    m, n = (int(v) for v in np.asarray(image).shape)
+                    w = int(q.shape[1])
+                    ci = _ints(q[:, 3]) if w > 4 else []
+                    cj = _ints(q[:, 4]) if w > 4 else []
+                    shapes = [[int(v) for v in np.asarray(x).shape] for x in (image, mask, labels, distances)]
+                    if all(len(sh) == 2 for sh in shapes):
+                        _rec(K_PROP, "propagate", [K_PROP, int(q.shape[0]), w, int(q.size), m, n, ci, cj, shapes])
+                    else:
+                        _unmon("propagate", spy_error="non-2-D argument")
+                else:
+                    _unmon("propagate", too_large=True)
+            except Exception as e:      # noqa
+                _unmon("propagate", spy_error=repr(e))
+        return real["propagate"](image, pq, mask, labels, distances, weight, *a, **kw)
+    spies["propagate"] = propagate
+
+    def augmenting_row_reduction(n, ii, jj, idx, count, x, y, u, v, c, *a, **kw):
+        if _Rec.calls is not None and _note("augmenting_row_reduction"):
+            try:
+                if _small(ii, jj, idx, count, y):
+                    _rec(K_ARR, "augmenting_row_reduction",
+                         [K_ARR, int(n), _ints(ii), _ints(jj), _ints(idx), _ints(count), _ints(y),
+                          int(np.asarray(x).size), int(np.asarray(u).size), int(np.asarray(v).size),
+                          int(np.asarray(c).size)])
+                else:
+                    _unmon("augmenting_row_reduction", too_large=True)
+            except Exception as e:      # noqa
+                _unmon("augmenting_row_reduction", spy_error=repr(e))
+        return real["augmenting_row_reduction"](n, ii, jj, idx, count, x, y, u, v, c, *a, **kw)
+    spies["augmenting_row_reduction"] = augmenting_row_reduction
 
     def passthrough(name):
         def spy(*a, **kw):
